@@ -310,6 +310,158 @@ theorem settle_transparent_sc (P : Prims) (kr : Keyring) (res : Signcrypt.Resolv
     · rfl
     · simp only [key]
 
+/-! ## attached signatures -/
+
+/-- REFERENCE run of the verifying receiver: `Sign.run` with the `typed` tail where a further
+    packet is expected and the `generic` one in `assertEndOfStream` -/
+def runSig2 (P : Prims) (s : Sign.State) : List (Option SigBlock) → (typed generic : Tail) → (seqno : Nat) → Released
+  | [], typed, _, _ =>
+    match typed with
+    | .eof => ⟨[], some .unexpectedEOF⟩
+    | .err e => ⟨[], some e⟩
+  | none :: _, _, _, _ => ⟨[], some .decodeError⟩
+  | some b :: rest, typed, generic, seqno =>
+    let isFinal := Sign.blockFinal s.version b
+    match Sign.processBlock P s b isFinal seqno with
+    | .error e => ⟨[], some e⟩
+    | .ok () =>
+      match checkChunkState s.version b.chunk.length (seqno - 1) isFinal with
+      | .error e => ⟨[], some e⟩
+      | .ok () =>
+        if isFinal then ⟨b.chunk, Decrypt.endOfStream rest generic⟩
+        else
+          let r := runSig2 P s rest typed generic (seqno + 1)
+          ⟨b.chunk ++ r.bytes, r.err⟩
+
+/-- reference composition for `NewVerifyStream` + read to the end -/
+def refVerify (P : Prims) (valid : Validator) (kr : Keyring) (hr : HeaderRead SigHeader)
+    (items : List (Option SigBlock)) (typed generic : Tail) : Sign.Result :=
+  match hr with
+  | .unreadable => ⟨none, [], some .failedToReadHeaderBytes⟩
+  | .undecodable _ => ⟨none, [], some .decodeError⟩
+  | .ok hb h =>
+    match Sign.validate valid h mtAttached with
+    | .error e => ⟨none, [], some e⟩
+    | .ok () =>
+      match kr.lookupSigningPublicKey h.senderPublic with
+      | none => ⟨none, [], some .noSenderKey⟩
+      | some pk =>
+        if h.version.major != 1 && h.version.major != 2 then
+          ⟨some pk, [], some (.panic "readSignatureBlock")⟩
+        else
+          let r := runSig2 P ⟨h.version, P.hash hb, pk⟩ items typed generic 1
+          ⟨some pk, r.bytes, r.err⟩
+
+theorem runSig2_same (P : Prims) (s : Sign.State) (items : List (Option SigBlock)) (t : Tail) (n : Nat) :
+    runSig2 P s items t t n = Sign.run P s items t n := by
+  induction items generalizing n with
+  | nil => cases t <;> rfl
+  | cons x rest ih =>
+    cases x with
+    | none => rfl
+    | some b =>
+      simp only [runSig2, Sign.run]
+      cases Sign.processBlock P s b (Sign.blockFinal s.version b) n with
+      | error e => rfl
+      | ok u =>
+        simp only []
+        cases checkChunkState s.version b.chunk.length (n - 1) (Sign.blockFinal s.version b) with
+        | error e => rfl
+        | ok u => simp only [ih]
+
+/-- case 2 — the last decoded packet is final: the typed tail is never consulted -/
+theorem runSig2_lastFinal (P : Prims) (s : Sign.State) (items : List (Option SigBlock)) (typed generic : Tail)
+    (n : Nat) (hl : Front.lastFinal (Sign.blockFinal s.version) items = true) :
+    runSig2 P s items typed generic n = Sign.run P s items generic n := by
+  induction items generalizing n with
+  | nil => simp [Front.lastFinal] at hl
+  | cons x rest ih =>
+    cases x with
+    | none => rfl
+    | some b =>
+      simp only [runSig2, Sign.run]
+      cases Sign.processBlock P s b (Sign.blockFinal s.version b) n with
+      | error e => rfl
+      | ok u =>
+        simp only []
+        cases checkChunkState s.version b.chunk.length (n - 1) (Sign.blockFinal s.version b) with
+        | error e => rfl
+        | ok u =>
+          simp only []
+          by_cases hf : Sign.blockFinal s.version b = true
+          · simp only [hf, if_true]
+          · have : Front.lastFinal (Sign.blockFinal s.version) rest = true := by
+              cases rest with
+              | nil => rw [lastFinal_single] at hl; exact absurd hl hf
+              | cons y r => rwa [lastFinal_cons_cons] at hl
+            simp [hf, ih _ this]
+
+/-- cases 1 and 3 — the last decoded item is not a final packet: the generic tail is never consulted -/
+theorem runSig2_not_lastFinal (P : Prims) (s : Sign.State) (items : List (Option SigBlock)) (typed generic : Tail)
+    (n : Nat) (hl : Front.lastFinal (Sign.blockFinal s.version) items = false) :
+    runSig2 P s items typed generic n = Sign.run P s items typed n := by
+  induction items generalizing n with
+  | nil => cases typed <;> rfl
+  | cons x rest ih =>
+    cases x with
+    | none => rfl
+    | some b =>
+      simp only [runSig2, Sign.run]
+      cases Sign.processBlock P s b (Sign.blockFinal s.version b) n with
+      | error e => rfl
+      | ok u =>
+        simp only []
+        cases checkChunkState s.version b.chunk.length (n - 1) (Sign.blockFinal s.version b) with
+        | error e => rfl
+        | ok u =>
+          simp only []
+          by_cases hf : Sign.blockFinal s.version b = true
+          · simp only [hf, if_true]
+            cases rest with
+            | nil => rw [lastFinal_single] at hl; simp [hf] at hl
+            | cons y r => rfl
+          · have : Front.lastFinal (Sign.blockFinal s.version) rest = false := by
+              cases rest with
+              | nil => rfl
+              | cons y r => rwa [lastFinal_cons_cons] at hl
+            simp [hf, ih _ this]
+
+/-- **`settle` is transparent for the verifying receiver (attached signatures)** -/
+theorem settle_transparent_sig (P : Prims) (valid : Validator) (kr : Keyring) (msg : Bytes)
+    (hr : HeaderRead SigHeader) (ps : PStream SigBlock) (h : Codec.splitSig msg = .ok (hr, ps)) :
+    Sign.verifyBytes P valid kr msg =
+      .ok (refVerify P valid kr hr ps.items ps.tail
+            (genericTailOf Codec.decSigHeader
+              (fun h => if Codec.majorOK h.version.major then some (Codec.decSigBlock h.version.major) else none) msg)) := by
+  obtain ⟨t, hs, ht⟩ := settle_spec Codec.decSigHeader
+    (fun h => if Codec.majorOK h.version.major then some (Codec.decSigBlock h.version.major) else none)
+    (fun h (b : SigBlock) => Sign.blockFinal h.version b) msg hr ps h
+  unfold Sign.verifyBytes Front.readSig
+  rw [h, hs]
+  simp only [Front.orWire]
+  congr 1
+  cases hr with
+  | unreadable => rfl
+  | undecodable x => rfl
+  | ok hb hd =>
+    simp only [Sign.verifyStream, refVerify]
+    obtain ⟨h1, h2⟩ := ht hb hd rfl
+    have key : ∀ pk, Sign.run P ⟨hd.version, P.hash hb, pk⟩ ps.items t 1 =
+        runSig2 P ⟨hd.version, P.hash hb, pk⟩ ps.items ps.tail
+        (genericTailOf Codec.decSigHeader
+          (fun h => if Codec.majorOK h.version.major then some (Codec.decSigBlock h.version.major) else none) msg) 1 := by
+      intro pk
+      cases hl : Front.lastFinal (Sign.blockFinal hd.version) ps.items with
+      | true => rw [h1 hl]; exact (runSig2_lastFinal P ⟨hd.version, P.hash hb, pk⟩ _ _ _ _ hl).symm
+      | false => rw [h2 hl]; exact (runSig2_not_lastFinal P ⟨hd.version, P.hash hb, pk⟩ _ _ _ _ hl).symm
+    cases Sign.validate valid hd mtAttached with
+    | error e => rfl
+    | ok u =>
+      simp only []
+      cases kr.lookupSigningPublicKey hd.senderPublic with
+      | none => rfl
+      | some pk => simp only [key]
+
 end Settle
 
 end Saltpack.Proofs
